@@ -51,6 +51,9 @@ structure DState where
   exactGuard : Bool := true   -- X=0 replays the behaviour before the `fix:` commit (F10)
   aliasGuard : Bool := true   -- A=0 replays the behaviour before the `fix:` commit (F11)
   drGuard : Bool := true      -- D=0 replays the behaviour before the `fix:` commit (F12, mesh default DR export)
+  sev : Option Sev := none    -- MeshConfig.serviceEntryVisibility (policies)
+  nsLabels : List (String × List (String × String)) := []
+  autoVis : List String := []  -- ids of the services whose visibility the policies resolve
   mesh : Mesh := {}
   raw : List Svc := []        -- as declared
   built : Bool := false
@@ -74,8 +77,13 @@ def decDests (t : String) : List Dest :=
 
 def decHTTP (t : String) : List HttpRoute :=
   if t == "-" then [] else (t.splitOn ";").map fun it =>
-    let (a, b) := cut it "^"
-    { srcNs := decItems a "|", dests := decDests b }
+    if it.startsWith "@" then
+      -- a delegating route: @<namespace or ~>|<name>
+      let (a, b) := cut (it.drop 1).toString "|"
+      { srcNs := [], dests := [], delegate := some (dec a, dec b) }
+    else
+      let (a, b) := cut it "^"
+      { srcNs := decItems a "|", dests := decDests b }
 
 def decEgress (t : String) : List Listener :=
   if t == "-" then [] else (t.splitOn ";").map fun it =>
@@ -118,6 +126,23 @@ def showScope (d : DState) (name : String) (ls : List ILW) (services : List Svc)
     "S=" ++ showSvcs services true,
     "L=" ++ ";".intercalate lst,
     "D=" ++ showDRs (selectDestinationRules d.mesh d.drIdx cfgNs services)]
+
+def decSevVis : String → SEVis
+  | "n" => .ns | "x" => .none | _ => .pub   -- "u" (UNSPECIFIED) and "p": Public
+
+def decSevRule (t : String) : SevRule :=
+  if t == "?" || t == "!" then none
+  else if t == "-" then some []
+  else some ((t.splitOn "+").map fun it => let (a, b) := cut it "="; (dec a, dec b))
+
+def decSev (t : String) : Sev :=
+  match t.splitOn ";" with
+  | [] => { dflt := .pub, policies := [] }
+  | dv :: ps =>
+    { dflt := decSevVis dv,
+      policies := ps.map fun pt =>
+        let (v, rs) := cut pt "^"
+        { vis := decSevVis v, rules := if rs == "" then [] else (rs.splitOn "&").map decSevRule } }
 
 def decVis : String → SEVis
   | "n" => .ns | "x" => .none | _ => .pub
@@ -167,6 +192,16 @@ def query (d : DState) (toks : List String) : String :=
     let labels := (decLabels lbl).getD []
     let sc := pickSidecar d.mesh d.scs cfgNs labels
     "C=" ++ encSet (clusterNames d cfgNs labels (scopeServices d.flags d.mesh d.svcs d.vss sc cfgNs))
+  | ["vsgw", ns, gw] =>
+    -- PushContext.VirtualServicesForGateway(ns, gw): the VirtualService selection of a Router
+    showVSs (gatewayVirtualServices d.mesh d.vss (dec ns) (dec gw))
+  | ["merged"] =>
+    -- the merged VirtualServices (delegates folded in): name > destination hosts
+    let items := d.vss.map fun v =>
+      let hosts := sortDedup ((v.http.flatMap (·.dests)).map (·.host) ++ v.tcp.map (·.host))
+      enc (v.ns ++ "/" ++ v.name) ++ ">" ++ plus (hosts.map enc)
+    let items := items.mergeSort (fun a b => !(b < a))
+    if items.isEmpty then "-" else ",".intercalate items
   | ["xdsgw", ns] =>
     -- CDS of a Router proxy (FilterGatewayClusterConfig off): the clusters of its default scope
     let cfgNs := dec ns
@@ -183,7 +218,7 @@ def query (d : DState) (toks : List String) : String :=
     let answers := hosts.flatMap fun h =>
       match services.find? (·.hostname == h) with
       | none => []
-      | some w => [80, 81, 8080, 9090].filterMap fun port =>
+      | some w => [80, 81, 8080, 9090, 8443].filterMap fun port =>
           if w.ports.any (·.num == port) then some (h ++ ":" ++ toString port ++ "=" ++ keyAddr d.raw h w.ns) else none
     "E=" ++ encList (answers.mergeSort (fun a b => !(b < a)))
   | ["gw", ns] =>
@@ -193,7 +228,7 @@ def query (d : DState) (toks : List String) : String :=
       let ls := scopeListeners d.flags d.mesh d.svcs d.vss none cfgNs
       showScope d (cfgNs ++ "/default-sidecar") ls (collectImportedServices d.flags d.mesh d.svcs cfgNs ls) cfgNs
     else
-    let vs := gatewayVirtualServices d.mesh d.vss cfgNs
+    let vs := gatewayVirtualServices d.mesh d.vss cfgNs "mesh"
     let services := gatewayScopeServices d.aliasGuard d.mesh d.svcs cfgNs
     showScope d (cfgNs ++ "/default-sidecar") [{ matchPort := none, hosts := [], services := [], vss := vs }] services cfgNs
   | _ => "bad-op"
@@ -213,11 +248,18 @@ def stepD (d : DState) (toks : List String) : DState × String :=
   | ["mesh", root, ds, dv, dd, ap] =>
     ({ d with mesh := { rootNs := dec root, defSvc := decOptList ds, defVS := decOptList dv,
                         defDR := decOptList dd, applyToSidecars := tokBool ap } }, "ok")
+  | ["mesh", root, ds, dv, dd, ap, v] =>
+    ({ d with mesh := { rootNs := dec root, defSvc := decOptList ds, defVS := decOptList dv,
+                        defDR := decOptList dd, applyToSidecars := tokBool ap },
+              sev := if v.startsWith "v=" then some (decSev (v.drop 2).toString) else none }, "ok")
+  | ["nsl", ns, lbl] => ({ d with nsLabels := d.nsLabels ++ [(dec ns, (decLabels lbl).getD [])] }, "ok")
   | ["svc", id, h, ns, reg, ct, name, ports, ex, vis, res, attr, al] =>
-    ({ d with raw := d.raw ++ [mkSvcD id h ns reg ct name ports ex vis res attr al none] }, "ok")
+    ({ d with raw := d.raw ++ [mkSvcD id h ns reg ct name ports ex vis res attr al none],
+              autoVis := if vis == "a" then dec id :: d.autoVis else d.autoVis }, "ok")
   | ["svc", id, h, ns, reg, ct, name, ports, ex, vis, res, attr, al, x] =>
     if x.startsWith "x=" then
-      ({ d with raw := d.raw ++ [mkSvcD id h ns reg ct name ports ex vis res attr al (some (dec (x.drop 2).toString))] }, "ok")
+      ({ d with raw := d.raw ++ [mkSvcD id h ns reg ct name ports ex vis res attr al (some (dec (x.drop 2).toString))],
+                autoVis := if vis == "a" then dec id :: d.autoVis else d.autoVis }, "ok")
     else (d, "bad-op")
   | ["vs", name, ns, ct, hosts, ex, gws, gwsem, http, tcp] =>
     let v : VS := { name := dec name, ns := dec ns, ctime := ct.toNat!, hosts := decItems hosts ",",
@@ -234,7 +276,8 @@ def stepD (d : DState) (toks : List String) : DState × String :=
                          egress := decEgress egress }
     ({ d with scs := d.scs ++ [c] }, "ok")
   | ["build"] =>
-    ({ d with built := true, defaultNs := [], svcs := resolveAliases (sortServices d.raw), vss := sortVS d.vssRaw,
+    ({ d with built := true, defaultNs := [], svcs := resolveAliases (sortServices (d.raw.map fun s =>
+                if d.autoVis.contains s.id then { s with vis := visibilityFor d.sev ((alookup s.ns d.nsLabels).getD []) } else s)), vss := sortVS (mergeVSs d.mesh d.vssRaw),
               drIdx := setDestinationRules d.enhanced d.drGuard d.mesh d.drs }, "ok")
   | [q, ns, lbl] =>
     if q != "scope" && q != "xds" && q != "eds" then (if d.built then (d, query d toks) else (d, "not-built")) else
